@@ -9,6 +9,7 @@ CONSTANTS
   ROs = {FALSE, TRUE}
   ExtNames = {"a", "b"}
   MaxFiles = {1, 2, 1000000}
+  FaultSet <- FaultsNone
   WhatIf = "none"
 SPECIFICATION Spec
 INVARIANT NoViolation
